@@ -98,6 +98,34 @@ def parse_races(out):
     return res
 
 
+def parse_fatal(out):
+    """The Go runtime's own detection of an unsynchronised map ('fatal error: concurrent map ...') kills the process; it is an
+    observation of the real code like a race report. -> race-like dict (cls protected|harness|other) or None."""
+    m = re.search(r"fatal error: (concurrent map [a-z ]+)\n+goroutine \d+ \[running\]:\n((?:.+\n)+)", out)
+    if not m:
+        return None
+    fr = re.findall(r"^(\S+)\(.*\)\n\t(\S+):(\d+)", m.group(2), re.M)
+    top, harness = None, False
+    for fn, path, ln in fr:
+        if top is None and not fn.startswith(("runtime.", "sync.", "internal/")):
+            top = (fn, path, int(ln))
+    for fn, path, ln in fr[:6]:
+        if top and (fn, path, int(ln)) == top:
+            break
+        if "zz_verif" in path or "/memadp/" in path or "verif_hook" in path:
+            harness = True
+    if top is None:
+        return None
+    fn, path, ln = top
+    harness = harness or "zz_verif" in path or "/memadp/" in path
+    text = src_line(path, ln)
+    short = fn.replace("github.com/tinode/chat/server.", "")
+    prot = bool(PROTECTED_RE.search(text) or PROTECTED_FN.search(short))
+    at = "%s:%d" % (os.path.basename(path), ln)
+    return {"a": at, "b": "runtime: " + m.group(1), "fa": short, "fb": "runtime.fatal", "ta": text.strip()[:120], "tb": m.group(1),
+            "cls": "harness" if harness else ("protected" if prot else "other"), "n": 1, "fatal": True}
+
+
 # ---------------------------------------------------------------------------------------------- vectors
 def norm_ev(e):
     return {"e": e.get("e", ""), "seq": e.get("seq", 0), "g": e.get("g", 0), "id": e.get("id", "") or "", "kind": e.get("k", "") or "",
@@ -429,6 +457,27 @@ def run(ctx):
         env["VERIF_C14_SELFTEST"] = os.environ["VERIF_C14_SELFTEST"]
     rc, out, wall = ctx.go_test("./", "TestVerifC14E2$", env=env, race=True, timeout=900)
     m = re.search(r"VERIF_C14_DONE runs=(\d+) hangs=(\d+) elapsed_ms=(\d+)", out)
+    fatal = parse_fatal(out)
+    if fatal and fatal["cls"] != "harness" and not m:
+        # the server process died of an unsynchronised map access in server code: judge what was observed (the race reports
+        # and the fatal access), there are no complete run records
+        races = [r for r in parse_races(out) if r["cls"] != "harness"] + [fatal]
+        vectors = [{"k": "race", "protected": r["cls"] == "protected", "a": r["a"], "b": r["b"]} for r in races]
+        vlib.write_ndjson(os.path.join(ctx.specdir, "c14_vectors.ndjson"), vectors)
+        r2, fails, divs = vlib.run_vector_monitor(ctx, "Monitor_C14", "c14_vectors.ndjson", timeout=600)
+        vlib.log("E2: the server process died: fatal error: %s at %s (%s); %d race reports; monitors: %d vectors, %d failing" % (
+            fatal["tb"], fatal["a"], fatal["fa"], len(races) - 1, len(vectors), len(fails)))
+        for k, mons in fails:
+            own = races[k - 1]
+            for mon in mons:
+                ctx.fail(mon, {"race": own}, site="%s|%s" % (own["a"], own["b"]), input_class="protected_data")
+        if not fails:
+            sys.stdout.write(out[-4000:])
+            raise vlib.Infra("the E2 process died of '%s' at %s, outside the protected structures and outside the monitors" % (fatal["tb"], fatal["a"]))
+        ctx.cov.update({"states": r1.distinct, "transitions": r1.generated, "evaluations": len(vectors), "exhaustive": False,
+                        "rule": "U1 Attach.tla as intended; E2 process died of a runtime-detected unsynchronised map access: only the race reports were judged",
+                        "race_reports": {"protected": [r for r in races if r["cls"] == "protected"]}})
+        return ctx.finish(level="model_checking", samples=vectors[:2])
     # the race detector makes `go test` fail when it reported something: that is an observation, not an infrastructure failure
     if not m or (rc != 0 and "WARNING: DATA RACE" not in out) or "panic:" in out or "[build failed]" in out:
         sys.stdout.write(out[-8000:])
